@@ -2,6 +2,7 @@ package props
 
 import (
 	"fmt"
+	banktypes "github.com/cosmos/cosmos-sdk/x/bank/types"
 	"math/big"
 	"strings"
 	"time"
@@ -181,6 +182,16 @@ func runStreamHistory(c *fw.Ctx, prop string, rules map[string]bool) {
 		}
 		if b == reimportAt {
 			e.Reimport()
+		}
+		if r.Chance(3) {
+			// x/bank's per-denomination send switch governs bank transfers between accounts; what a
+			// stream owes its parties is none of its business - streams in a denomination whose sends
+			// are disabled must keep paying out, stay cancellable and stay fully backed
+			d := []string{lab.Denom2, lab.DenomBig}[r.Intn(2)]
+			en := r.Chance(30)
+			e.Gov(fmt.Sprintf("bank send-enabled %s=%v", d, en), &banktypes.MsgSetSendEnabled{Authority: lab.GovAuthority(), SendEnabled: []*banktypes.SendEnabled{{Denom: d, Enabled: en}}})
+			c.Count("send_enabled_changes", 1)
+			continue
 		}
 		if r.Chance(5) {
 			// (the last three are just outside [0,1]: the chain must not accept them - and whatever rate
@@ -394,6 +405,25 @@ func pureStreamCases(c *fw.Ctx, n int, viol func(rule, sig, format string, a ...
 				viol("pure-panic", "CalculateDuration", "CalculateDuration(%s, %d) panicked: %v", dc, rate, p)
 			} else if big.NewInt(gd).Cmp(wd) != 0 {
 				viol("pure-duration", "near-multiple/"+magOf(wd), "CalculateDuration(%s, %d) = %d, exact floor = %s", dc, rate, gd, wd)
+			}
+		}
+		// quotients an int64 cannot carry (2^63 and beyond, on both sides of 2^64): whatever the function
+		// answers, it must not be SHORTER than 2^62 seconds - a negative or small duration would put the
+		// deposit-zero time at "now" and release everything at once
+		if i%16 == 0 {
+			for _, q := range []string{"9223372036854775807", "9223372036854775808", "9223372036854775809", "13835058055282163712", "18446744073709551615", "18446744073709551616", "18446744073709551617", "36893488147419103232"} {
+				qq, _ := new(big.Int).SetString(q, 10)
+				small := []int64{1, 2, 3, 1000}[r.Intn(4)]
+				d := new(big.Int).Mul(qq, big.NewInt(small))
+				d.Add(d, big.NewInt(int64(r.Intn(int(small)))))
+				dc := sdk.NewCoin(lab.DenomBig, math.NewIntFromBigInt(d))
+				var gd int64
+				c.Count("pure_cases", 1)
+				if p := safeCall(func() { gd = streamtypes.CalculateDuration(dc, small) }); p != nil {
+					viol("pure-panic", "CalculateDuration", "CalculateDuration(%s, %d) panicked: %v", dc, small, p)
+				} else if qq.BitLen() > 63 && gd < 1<<62 || qq.BitLen() <= 63 && big.NewInt(gd).Cmp(qq) != 0 {
+					viol("pure-duration", "quotient>=2^63", "CalculateDuration(%s, %d) = %d, exact floor = %s (a result below 2^62 seconds shortens the stream)", dc, small, gd, qq)
+				}
 			}
 		}
 		wantDur := new(big.Int).Quo(dep, big.NewInt(rate))
